@@ -18,6 +18,7 @@ type c01Case struct {
 	RPCs    []sim.RPC
 	Closer  []string // per RPC: "", "close", "cancel", "hclose" — a party that ends the RPC early
 	Choices []int
+	Skips   int // RPCs in which the receivers start with a receive that cannot decode its message
 }
 
 func sendSteps(t *rapid.T, cfg sim.Config, max int, label string) []sim.Step {
@@ -51,6 +52,22 @@ func sendSteps(t *rapid.T, cfg sim.Config, max int, label string) []sim.Step {
 	for _, v := range []int{wb - 12, wb - 11, wb - 10, wb, wb + 1, 2 * wb} {
 		add(v)
 	}
+	if cfg.ReaderMax > 0 {
+		// the receiving reader's packet limit: messages of exactly the limit and just below it are legal (anything
+		// above would, rightly, end the connection, so it is not sent)
+		kept := sizes[:0]
+		for _, v := range sizes {
+			if v+17 <= cfg.ReaderMax {
+				kept = append(kept, v)
+			}
+		}
+		sizes = kept
+		for _, v := range []int{cfg.ReaderMax, cfg.ReaderMax, cfg.ReaderMax - 1} {
+			if v-17 >= 0 && v-17 < limit {
+				sizes = append(sizes, v-17)
+			}
+		}
+	}
 	return rapid.SliceOfN(rapid.Custom(func(t *rapid.T) sim.Step {
 		return sim.Step{Op: "send", Size: rapid.SampledFrom(sizes).Draw(t, "size")}
 	}), 0, max).Draw(t, label)
@@ -63,6 +80,9 @@ func genC01(t *rapid.T) c01Case {
 		WriterBuf:   rapid.SampledFrom([]int{1, 16, 100, 0}).Draw(t, "wbuf"),
 		ManualFlush: rapid.IntRange(0, 3).Draw(t, "manual") == 0,
 	}}
+	if rapid.IntRange(0, 3).Draw(t, "readermax") == 0 {
+		c.Cfg.ReaderMax = rapid.SampledFrom([]int{64, 300, 5000}).Draw(t, "rmax")
+	}
 	if rapid.IntRange(0, 2).Draw(t, "smallbuf") == 0 {
 		c.Cfg.StreamMaxBuf = rapid.SampledFrom([]int{1, 50, 5000}).Draw(t, "smaxbuf")
 	}
@@ -103,6 +123,26 @@ func genC01(t *rapid.T) c01Case {
 			// the half-close must come after both client senders: a third sub-actor would need to join them, so
 			// in this shape the client never half-closes and the RPC is ended by a closer below.
 		}
+		// a receiver whose first receive cannot decode its message and carries on with the next one: the
+		// undecodable message is consumed, not handed out again
+		if rapid.IntRange(0, 3).Draw(t, "recvskip") == 0 {
+			skipFirst := func(steps []sim.Step) []sim.Step {
+				for i, s := range steps {
+					if s.Op == "drain" {
+						out := append([]sim.Step(nil), steps[:i]...)
+						out = append(out, sim.Step{Op: "recvskip"})
+						return append(out, steps[i:]...)
+					}
+				}
+				return steps
+			}
+			p.Client.Steps = skipFirst(p.Client.Steps)
+			if len(p.CSubs) > 0 {
+				p.CSubs[0].Steps = skipFirst(p.CSubs[0].Steps)
+			}
+			p.Handler.Steps = skipFirst(p.Handler.Steps)
+			c.Skips++
+		}
 		closer := ""
 		if shape == 2 || rapid.IntRange(0, 3).Draw(t, "closer") == 0 {
 			closer = rapid.SampledFrom([]string{"close", "cancel"}).Draw(t, "closerkind")
@@ -128,6 +168,10 @@ func runC01(c c01Case) (r pbt.Result) {
 	}
 	choices := append([]int(nil), c.Choices...)
 	steps := 0
+	anyCloser := false
+	for _, cl := range c.Closer {
+		anyCloser = anyCloser || cl != ""
+	}
 	multiWrite, parkedUnmarshal := false, false
 	for k := range c.RPCs {
 		w.StartClient(k)
@@ -166,6 +210,12 @@ func runC01(c c01Case) (r pbt.Result) {
 	w.Flush(sim.Filter{Coarse: true})
 	if v := w.Violations(); len(v) > 0 {
 		fail("%s", v[0])
+		return
+	}
+	if !anyCloser && w.Closed() {
+		// nobody cancelled, closed early or failed, every message is within the reader's limit: nothing entitles
+		// either side to give up the connection
+		fail("the connection was torn down although every call was left to complete")
 		return
 	}
 	ops := w.OpsSnapshot()
@@ -328,6 +378,12 @@ func runC01(c c01Case) (r pbt.Result) {
 	}
 	if c.Cfg.ManualFlush {
 		r.Label("manual_flush")
+	}
+	if c.Skips > 0 {
+		r.Label("receiver_skips_an_undecodable_message")
+	}
+	if c.Cfg.ReaderMax > 0 {
+		r.Label("messages_at_the_readers_limit")
 	}
 	r.NonTrivial = multiFrame || concurrent || parkedUnmarshal
 	r.Key = strings.Join(w.Trace, ",") + fmt.Sprintf("|%+v|%+v", c.Cfg, c.RPCs)
